@@ -140,6 +140,10 @@ def run(rec, cfg):
     MR.CHECKS.update({"value", "equation", "structure", "print", "evaluate-after"})
     MR.attach_apply()
     rng = cfg.rng("c09")
+    from ..workloads import interrupted as _INT
+
+    if cfg.shard == 6 % cfg.nshards:
+        _INT.balanced_move_cases(rec, "C09")
     rules = MR.rule_instances()
     n = cfg.scale(75, 20000)
     # directed episodes: distribute first, then a handful of steps among the rules that act inside
@@ -170,6 +174,8 @@ def run(rec, cfg):
         if root is None:
             continue
         policy = rng.choice(["balanced", "novelty"])
+        if rng.random() < 0.2:
+            D.failing_renderings(rec)      # an agent logging its states also renders things that are not finished yet
         ep, status = run_episode(rec, root, rng, rules, rng.randint(10, 60), policy, text, hints)
         rec.arm("episodes")
         rec.arm("episodes:" + policy)
@@ -188,6 +194,11 @@ def run(rec, cfg):
 
 
 def replay(rec, cfg, w):
+    if "failpoint" in w:
+        from ..workloads import interrupted as _INT
+
+        _INT.balanced_move_cases(rec, "C09")      # deterministic: the whole family of cases is run again
+        return
     rec.alias = {"C01", "C02", "C04", "C06", "C07"}
     MR.CHECKS.update({"value", "equation", "structure", "print"})
     MR.attach_apply()
